@@ -449,7 +449,18 @@ func (m *Machine) callSSA(caller *frame, fn *ssa.Function, args []Value, env []V
 		if m.isOpaquePkg(fn.Pkg) || skipInit[fn.Pkg.Pkg.Path()] {
 			return nil
 		}
+		if m.InInit && caller != nil && !m.HarnessP[fn.Pkg.Pkg.Path()] {
+			// initialiser of a dependency, called from an importer's init: a failure in it
+			// (unmodelled library results, reflection) must not take the harness package down;
+			// whatever it left uninitialised shows up as an abort if a harness ever reads it
+			return m.protectedInit(caller, fn, args)
+		}
 	}
+	return m.callSSAInner(caller, fn, args, env)
+}
+
+func (m *Machine) callSSAInner(caller *frame, fn *ssa.Function, args []Value, env []Value) Value {
+	name := fnKey(fn)
 	if fn.Blocks == nil {
 		if fn.Pkg != nil {
 			fn.Pkg.Build()
@@ -500,6 +511,23 @@ func (m *Machine) callSSA(caller *frame, fn *ssa.Function, args []Value, env []V
 		m.runFrame(fr)
 	}
 	return fr.result
+}
+
+func (m *Machine) protectedInit(caller *frame, fn *ssa.Function, args []Value) (res Value) {
+	depth := m.depth
+	defer func() {
+		if r := recover(); r != nil {
+			switch r.(type) {
+			case targetPanic, pathAbort:
+				m.depth = depth
+				m.ex.StubsHit["init-failed:"+fn.Pkg.Pkg.Path()]++
+				res = nil
+			default:
+				panic(r)
+			}
+		}
+	}()
+	return m.callSSAInner(caller, fn, args, nil)
 }
 
 func (m *Machine) runFrame(fr *frame) {
@@ -736,6 +764,12 @@ func (m *Machine) visit(fr *frame, instr ssa.Instruction) continuation {
 	case *ssa.MakeMap:
 		fr.set(instr, m.newMap(instr.Type().Underlying().(*types.Map).Key()))
 	case *ssa.MakeChan:
+		if m.InInit {
+			// package initialisers of unrelated dependencies: the channel is never used by a harness
+			m.ex.StubsHit["init-skipped:make(chan)"]++
+			fr.set(instr, Opaque{"chan"})
+			break
+		}
 		m.path.abort("unsupported", "channels")
 	case *ssa.Range:
 		fr.set(instr, m.rangeIter(fr.get(instr.X), instr.X.Type()))
@@ -809,6 +843,10 @@ func (m *Machine) visit(fr *frame, instr ssa.Instruction) continuation {
 		}
 		fr.set(instr, &Closure{instr.Fn.(*ssa.Function), b})
 	case *ssa.Go, *ssa.Send, *ssa.Select:
+		if _, isGo := instr.(*ssa.Go); isGo && m.InInit {
+			m.ex.StubsHit["init-skipped:go statement"]++
+			break
+		}
 		m.path.abort("unsupported", fmt.Sprintf("concurrency instruction %T", instr))
 	default:
 		panic(fmt.Sprintf("unexpected instruction %T", instr))
